@@ -437,3 +437,65 @@ func vh_C12_floats() {
 func vFloatFromBits(b uint64) float64 { return vMathFloat64frombits(b) }
 
 func vMathFloat64frombits(b uint64) float64 { return math.Float64frombits(b) }
+
+// strings that scripts compute rather than write down: built by the string
+// builtins from pieces of both literal kinds (double-quoted and backtick),
+// with a symbolic rune in one piece - whatever the way a string came to be,
+// its printed form reads back as the same string
+var vC12Computed = []string{
+	"(concat `abc` \"dPe\")",
+	"(concat \"ab\" `cPd`)",
+	"(append `abc` \"P\")",
+	"(append \"ab\" 'c')",
+	"(concat `a` `b` \"P\")",
+	"(str `raw` \"P\" 12)",
+	"(join [`a` \"P\"] \"-\")",
+	"(first (split `aPb` \"P\"))",
+	"(sym2str (quote abc))",
+	"(slice `abcdef` 1 3)",
+	"(concat (slice `abcdef` 0 2) \"P\")",
+	"(let [s `raw`] (concat s \"P\"))",
+	"(aget [`raw`] 0)",
+	"(hget (hash k: (concat `x` \"P\")) k:)",
+}
+
+func vh_C12_computed() {
+	env := vStdEnvs(1)[0]
+	k := vChoice("expr", len(vC12Computed))
+	// the piece marked P: a backtick, a double quote, a backslash, a newline, or any printable ASCII rune
+	pk := vChoice("piece", 5)
+	var piece string
+	switch pk {
+	case 0:
+		piece = "`"
+	case 1:
+		piece = `\"`
+	case 2:
+		piece = `\\`
+	case 3:
+		piece = `\n`
+	default:
+		piece = "q"
+	}
+	src := vReplace(vC12Computed[k], "P", piece)
+	res, err, p := vEvalString(env, src)
+	vAssert(!p, "computing-a-string-does-not-panic")
+	if p || err != nil {
+		// an expression this configuration does not have is not part of the claim
+		vReach("computed")
+		return
+	}
+	s, isS := res.(*SexpStr)
+	if !isS {
+		vReach("computed")
+		return
+	}
+	txt := s.SexpString(nil)
+	back, ok := vReadOne(env, txt)
+	vAssert(ok, "computed-string-print-is-readable")
+	if ok {
+		b, isB := back.(*SexpStr)
+		vAssert(isB && b.S == s.S, "computed-string-reads-back")
+	}
+	vReach("computed")
+}
